@@ -100,8 +100,29 @@ def _case(draw):
                 g["anchors"] = [{"name": "_top", "x": draw(st.integers(-50, 50)), "y": draw(st.integers(400, 600))}]
             elif g["unicodes"] and draw(st.booleans()):
                 g["anchors"] = [{"name": "top", "x": draw(st.integers(100, 400)), "y": draw(st.integers(500, 800))}]
+        if draw(st.integers(0, 5)) == 0:
+            # the skipped glyph is the only glyph of its script, and a kerned remaining glyph has that script among its script extensions (danda)
+            deva = {"ka-deva", "ga-deva", "anusvara-deva", "udatta"}
+            spec["glyphs"] = [g for g in spec["glyphs"] if g["name"] not in deva or g["name"] == "ka-deva"]
+            have_ = {g["name"] for g in spec["glyphs"]}
+            for n_, u_ in (("ka-deva", 0x915), ("danda", 0x964), ("A", 0x41)):
+                if n_ not in have_:
+                    spec["glyphs"].append({"name": n_, "width": 500, "unicodes": [u_], "contours": [[[0, 0, "line"], [50, 0, "line"], [25, 40, "line"]]]})
+            gone = deva - {"ka-deva"}
+            spec["groups"] = {k: [m for m in ms if m not in gone] for k, ms in spec["groups"].items()}
+            spec["kerning"] = [e for e in spec["kerning"] if e[0] not in gone and e[1] not in gone] + [["danda", "danda", -33]]
+            for key in ("public.openTypeCategories",):
+                if key in spec["lib"]:
+                    spec["lib"][key] = {k: v for k, v in spec["lib"][key].items() if k not in gone}
+            if "glyphOrder" in spec:
+                spec["glyphOrder"] = [n for n in spec["glyphOrder"] if n not in gone] + [n_ for n_ in ("ka-deva", "danda", "A") if n_ not in spec["glyphOrder"]]
+            skip = ["ka-deva"]
+            spec["_lone_script"] = True
         only = spec.pop("_cats_only_skipped", False)
+        lone = spec.pop("_lone_script", False)
         case = {"mode": mode, "module": module, "spec": spec, "skip": sorted(skip), "how": draw(st.sampled_from(["lib", "arg"]))}
+        if lone:
+            case["skipped_glyph_is_the_only_one_of_its_script"] = True
         if only:
             case["categories_name_skipped_glyphs_only"] = True
         return case
@@ -384,12 +405,46 @@ def run_static_layout(case, ctx):
             mb = otl.eval_attach(sub, g1, g2, tag)
             if ma != mb:
                 raise Violation("mark attachment between remaining glyphs changed by skipping other glyphs", tag=tag, pair=[g1, g2], without_skip=ma, with_skip=mb)
+    # absolute anchor: the same layout tables as a font compiled from sources that never had the skipped glyphs (their names taken out of groups and kerning too). Only when no remaining glyph refers to a skipped one as a component - such sources can be pruned without decomposing anything
+    gi_ = {g["name"]: g for g in spec["glyphs"]}
+    if not any(c["base"] in skip for g in spec["glyphs"] if g["name"] not in skip for c in g.get("components", [])):
+        pr = copy.deepcopy(spec)
+        pr["glyphs"] = [g for g in pr["glyphs"] if g["name"] not in skip]
+        pr["groups"] = {k: [m for m in ms if m not in skip] for k, ms in pr.get("groups", {}).items()}
+        pr["groups"] = {k: ms for k, ms in pr["groups"].items() if ms}
+        pr["kerning"] = [e for e in pr.get("kerning", []) if e[0] not in skip and e[1] not in skip and all(k_ in pr["groups"] for k_ in e[:2] if k_.startswith("public.kern"))]
+        if "glyphOrder" in pr:
+            pr["glyphOrder"] = [n for n in pr["glyphOrder"] if n not in skip]
+        lib_ = pr.setdefault("lib", {})
+        lib_.pop("public.skipExportGlyphs", None)
+        # (the category map keeps its entries for the absent glyphs: whether categories are "defined" at all is a property of the map as written)
+        try:
+            with guard("compile of the pruned sources"):
+                pruned = reload(ufo2ft.compileTTF(S.build(pr, module), useProductionNames=False))
+        except Violation:
+            raise
+        except Exception:
+            pruned = None
+        if pruned is not None and pruned.getGlyphOrder() == sub.getGlyphOrder():
+            for tag_ in ("GPOS", "GDEF"):
+                a_ = sub.reader[tag_] if tag_ in sub.reader else None
+                b_ = pruned.reader[tag_] if tag_ in pruned.reader else None
+                if a_ != b_:
+                    detail = {}
+                    if tag_ == "GPOS" and a_ is not None and b_ is not None:
+                        detail = {"scripts_with_skip_list": {tg: sorted({ft for ft, _ in otl.langsys_features(sub, "GPOS", tg)}) for tg in otl.script_tags(sub)},
+                                  "scripts_pruned_sources": {tg: sorted({ft for ft, _ in otl.langsys_features(pruned, "GPOS", tg)}) for tg in otl.script_tags(pruned)}}
+                    raise Violation("layout table differs from the one compiled from sources that never had the skipped glyphs", table=tag_, skip=skip, **detail)
+            ctx.count("layout-tables-compared-with-pruned-sources")
+            ctx.label("compared-with-pruned-sources")
     ctx.count("layout-pairs-compared", npairs)
     if nacross[0]:
         ctx.count("pairs-compared-across-a-non-spacing-mark", nacross[0])
         ctx.label("kerning-across-non-spacing-mark")
     if case.get("categories_name_skipped_glyphs_only"):
         ctx.label("categories-name-skipped-glyphs-only")
+    if case.get("skipped_glyph_is_the_only_one_of_its_script"):
+        ctx.label("skipped-glyph-is-the-only-one-of-its-script")
     if any(width[n] and n in c05.MARKS for n in skip) and "public.openTypeCategories" in spec["lib"]:
         ctx.label("skipped-spacing-mark")
     if any(m in skip for ms in spec["groups"].values() for m in ms):
